@@ -188,6 +188,8 @@ def check(run, prog, tier):
     run.rule("C02-O", "an evolution answers from the states it has stored: a state object handed to it at construction, whose "
                       "values were copied into the storage, is the caller's and is not read again for a result", minimum=1)
     rule_O(run, prog)
+    run.rule("C02-R", "the density matrix made of a state vector is |psi><psi|: the amplitude of the column index is the conjugated one", minimum=3)
+    rule_R(run, prog)
     run.rule("C02-Q", "the Hamiltonian hands out its matrices (also the rotating-frame one) for the basis and units in force at the "
                       "call: nothing computed for an earlier propagation is kept", minimum=1)
     from . import memorule
@@ -821,6 +823,84 @@ def rule_P(run, prog, rid="C02-P", routines=LINEAR_ROUTINES, floor=9):
                            loc=f.loc(at) if dg.trace and hasattr(at, "lineno") else f.loc(f.node), sample={"degree": d})
     if n < floor:
         raise AnalysisError("%s: only %d propagation routines analysed" % (rid, n))
+
+
+def ketbra_sites(fnode):
+    """Statements that form |psi><psi| element-wise or as an outer product: (statement, row factors, column factors)
+    where a factor is an expression of the product.  Element form: target X[.., i, j] = product with factors subscripted
+    by the name i (row) or j (column) last.  Outer form: numpy.outer(A, B) - A is the row factor, B the column one."""
+    out = []
+    for st in walk_no_nested(fnode):
+        if not isinstance(st, ast.Assign):
+            continue
+        v = st.value
+        outers = [c for c in ast.walk(v) if isinstance(c, ast.Call) and (call_name(c) or "").split(".")[-1] == "outer" and len(c.args) == 2]
+        if outers:
+            out.append((st, [outers[0].args[0]], [outers[0].args[1]]))
+            continue
+        t_ = st.targets[0]
+        if not (isinstance(t_, ast.Subscript) and isinstance(t_.slice, ast.Tuple) and len(t_.slice.elts) >= 2):
+            continue
+        i_, j_ = t_.slice.elts[-2], t_.slice.elts[-1]
+        if not (isinstance(i_, ast.Name) and isinstance(j_, ast.Name)) or i_.id == j_.id:
+            continue
+        if not (isinstance(v, ast.BinOp) and isinstance(v.op, ast.Mult)):
+            continue
+        facs = []
+
+        def flat(e):
+            if isinstance(e, ast.BinOp) and isinstance(e.op, ast.Mult):
+                flat(e.left)
+                flat(e.right)
+            else:
+                facs.append(e)
+        flat(v)
+
+        def last_index(e):
+            for x in ast.walk(e):
+                if isinstance(x, ast.Subscript):
+                    sl = x.slice.elts[-1] if isinstance(x.slice, ast.Tuple) else x.slice
+                    if isinstance(sl, ast.Name):
+                        return sl.id
+            return None
+        rows = [f_ for f_ in facs if last_index(f_) == i_.id]
+        cols = [f_ for f_ in facs if last_index(f_) == j_.id]
+        if len(rows) == 1 and len(cols) == 1 and len(facs) == 2:
+            out.append((st, rows, cols))
+    return out
+
+
+def rule_R(run, prog):
+    """'State-vector and density-matrix propagation agree': the density matrix of a state vector is |psi><psi|,
+    rho[i, j] = psi[i] conj(psi[j]) - the amplitude of the row index as it is, that of the column index conjugated.
+    With the conjugate on the row factor the result is the transposed (complex conjugated) matrix: still Hermitian, of
+    unit trace and pure, so no conservation law notices, but it is the state with all relative phases reversed and it
+    evolves away from |psi(t)><psi(t)|.  Every element-wise product rho[.., i, j] = a[i] * b[j] and every
+    numpy.outer(a, b) in the state-vector classes has the conjugation on the column factor and on it alone."""
+    rid = "C02-R"
+    n = 0
+    for q, names in (("quantarhei.qm.hilbertspace.statevector.StateVector", ("get_DensityMatrix",)),
+                     ("quantarhei.qm.propagators.statevectorevolution.StateVectorEvolution", ("get_DensityMatrixEvolution",))):
+        cls = prog.cls(q)
+        for nme in names:
+            f = cls.methods[nme]
+            prog.consulted.add(f.relpath)
+            sites = ketbra_sites(f.node)
+            if not sites:
+                raise AnalysisError("%s: no product of amplitudes found" % f.short)
+            for st, rows, cols in sites:
+                n += 1
+
+                def conj_in(e):
+                    return any(isinstance(x, ast.Call) and (call_name(x) or "").split(".")[-1] in ("conj", "conjugate") for x in ast.walk(e))
+                ok = all(conj_in(c) for c in cols) and not any(conj_in(r) for r in rows)
+                run.obligation(rid, f.short, ok, key="bra-is-conjugated:" + norm(st)[:40],
+                               message="%s forms `%s`: the conjugation belongs to the factor of the column index (<psi|) and to it "
+                                       "alone; here the result is the complex conjugate of |psi><psi| - a valid state, but the one with "
+                                       "reversed relative phases, which does not follow the propagated state vector"
+                                       % (f.short, norm(st)[:80]), loc=f.loc(st), sample={"statement": norm(st)[:80]})
+    if n < 3:
+        raise AnalysisError("C02-R: only %d products of amplitudes found (3 confirmed)" % n)
 
 
 def rule_O(run, prog):
